@@ -117,3 +117,88 @@ pub(crate) fn consumed(r: &ReaderRead<Chunked<'_>>) -> usize {
 pub(crate) fn scratch_len(r: &ReaderRead<Chunked<'_>>) -> usize {
 	r.scratch.len()
 }
+
+/// copy visitor for reader-layer harnesses
+fn copy4(b: &[u8]) -> Result<([u8; 4], usize), DeError> {
+	let mut o = [0u8; 4];
+	let mut i = 0;
+	while i < b.len() && i < 4 {
+		o[i] = b[i];
+		i += 1;
+	}
+	Ok((o, b.len()))
+}
+
+// @harness props=C11 tier=quick timeout=1200
+// @bound reader layer, TWO consecutive length-n reads (n1, n2 symbolic 0..=4) from one reader (scratch buffer reused between them) then a varint, over every byte string of length 0..=9 and every refill size 1..=9: same bytes, same Ok/Err and same consumed length as the slice reader
+#[kani::proof]
+#[kani::unwind(11)]
+#[kani::stub(alloc::fmt::format, crate::verif::stub_format)]
+fn c11_rd_slice_twice() {
+	let data: [u8; 9] = kani::any();
+	let len: usize = kani::any();
+	kani::assume(len <= 9);
+	let chunk: usize = kani::any();
+	kani::assume(chunk >= 1 && chunk <= 9);
+	let n1: usize = kani::any();
+	let n2: usize = kani::any();
+	kani::assume(n1 <= 4 && n2 <= 4);
+	let s = &data[..len];
+	let mut sr = SliceRead::new(s);
+	let mut rr = ReaderRead::new(Chunked::new(s, chunk));
+	let a1 = sr.read_slice(n1, copy4);
+	let b1 = rr.read_slice(n1, copy4);
+	kani::cover!(b1.is_ok() && n1 > chunk);
+	match (&a1, &b1) {
+		(Ok(x), Ok(y)) => assert!(x.1 == y.1 && x.0 == y.0, "c11_rd_slice: first read differs"),
+		(Err(_), Err(_)) => {}
+		_ => assert!(false, "c11_rd_slice: first read Ok/Err differs between slice and reader"),
+	}
+	if a1.is_ok() && b1.is_ok() {
+		let a2 = sr.read_slice(n2, copy4);
+		let b2 = rr.read_slice(n2, copy4);
+		kani::cover!(b2.is_ok() && n2 < n1 && n2 > 0 && n1 > chunk);
+		match (&a2, &b2) {
+			(Ok(x), Ok(y)) => {
+				assert!(x.1 == y.1 && x.0 == y.0, "c11_rd_slice: second read differs");
+				assert!(len - sr.slice.len() == rr.reader.consumed(), "c11_rd_slice: consumed length differs after two reads");
+			}
+			(Err(_), Err(_)) => {}
+			_ => assert!(false, "c11_rd_slice: second read Ok/Err differs between slice and reader"),
+		}
+		std::mem::forget(a2);
+		std::mem::forget(b2);
+	}
+	std::mem::forget(a1);
+	std::mem::forget(b1);
+}
+
+// @harness props=C11 tier=quick timeout=1200
+// @bound reader layer, skip_bytes(n) (n symbolic 0..=7), every byte string 0..=6 x refill size 1..=6: same Ok/Err and consumed length as the slice reader (std::io::copy replaced by a 4-byte-buffer model)
+#[kani::proof]
+#[kani::unwind(12)]
+#[kani::stub(alloc::fmt::format, crate::verif::stub_format)]
+#[kani::stub(std::io::copy, crate::verif::stub_io_copy)]
+fn c11_rd_skip() {
+	let data: [u8; 6] = kani::any();
+	let len: usize = kani::any();
+	kani::assume(len <= 6);
+	let chunk: usize = kani::any();
+	kani::assume(chunk >= 1 && chunk <= 6);
+	let n: u64 = kani::any();
+	kani::assume(n <= 7);
+	let s = &data[..len];
+	let mut sr = SliceRead::new(s);
+	let mut rr = ReaderRead::new(Chunked::new(s, chunk));
+	let a = <SliceRead as Read>::skip_bytes(&mut sr, n);
+	let b = <ReaderRead<Chunked> as Read>::skip_bytes(&mut rr, n);
+	kani::cover!(a.is_ok() && n as usize > chunk);
+	kani::cover!(a.is_err());
+	match (&a, &b) {
+		(Ok(()), Ok(())) => assert!(len - sr.slice.len() == rr.reader.consumed(), "c11_rd_skip: consumed length differs"),
+		(Err(_), Err(_)) => {}
+		_ => assert!(false, "c11_rd_skip: Ok/Err differs between slice and reader"),
+	}
+	std::mem::forget(a);
+	std::mem::forget(b);
+}
